@@ -113,12 +113,20 @@ var funcSpecs = []funcSpec{
 	{rel: "", name: "headerMAC", abstract: []string{"format.MarshalWithoutMAC"}, opaque: map[string]string{"io.Reader": "κ", "hash.Hash": "η", "io.Writer": "η"},
 		threaded: map[string][]string{"format.MarshalWithoutMAC": {"hh"}}},
 	{rel: "", name: "streamKey", opaque: map[string]string{"io.Reader": "κ"}},
+	{rel: "agessh", name: "multiUnwrap", abstract: []string{"errors.Is"}},
+	{rel: "agessh", name: "(*Ed25519Recipient).Wrap", abstract: sshAbstract, opaque: sshOpaque, tape: true},
+	{rel: "agessh", name: "(*Ed25519Identity).unwrap", abstract: sshAbstract, opaque: sshOpaque},
+	{rel: "agessh", name: "(*Ed25519Identity).Unwrap", abstract: append([]string{"errors.Is"}, sshAbstract...), opaque: sshOpaque},
 	{rel: "", name: "ParseRecipients", abstract: []string{"age.ParseX25519Recipient"}, opaque: map[string]string{"Recipient": "κ", "X25519Recipient": "κ"}, errInts: true},
 }
 
 // the native recipients: the primitives are abstract
 var nativeAbstract = []string{"curve25519.X25519", "format.EncodeToString", "format.DecodeString", "age.aeadEncrypt", "age.aeadDecrypt", "scrypt.Key"}
 var nativeOpaque = map[string]string{"io.Reader": "κ", "tapeτ": "τ"}
+
+// agessh: the primitives, the key's wire form and its fingerprint are abstract
+var sshAbstract = []string{"curve25519.X25519", "format.EncodeToString", "format.DecodeString", "agessh.aeadEncrypt", "agessh.aeadDecrypt", "agessh.sshFingerprint"}
+var sshOpaque = map[string]string{"io.Reader": "κ", "tapeτ": "τ", "ssh.PublicKey": "π"}
 
 // internal/stream: the AEAD and the destination are abstract state, the source is a Go.Src
 var streamOpaque = map[string]string{"cipher.AEAD": "α", "io.Writer": "δ", "io.Reader": "Go.Src"}
@@ -740,6 +748,12 @@ func (c *fctx) expr(e ast.Expr) string {
 					}
 				}
 			}
+			// a package-level variable of another package of the module (age.ErrIncorrectIdentity)
+			if pn, ok := c.info().Uses[id].(*types.PkgName); ok && c.t.pr.ByPath[pn.Imported().Path()] != nil {
+				if v, ok := c.info().Uses[x.Sel].(*types.Var); ok {
+					return c.t.global(c, x, v)
+				}
+			}
 			if pn, ok := c.info().Uses[id].(*types.PkgName); ok && pn.Imported().Path() == "io" {
 				switch x.Sel.Name {
 				case "EOF":
@@ -1086,7 +1100,7 @@ func (c *fctx) call(x *ast.CallExpr) string {
 					c.fail(x, "hkdf.New with a hash other than sha256.New")
 				}
 				c.useAbstractName("hkdf_New_sha256", "(hkdf_New_sha256 : (List UInt8) → (List UInt8) → (List UInt8) → Go.M κ)")
-				return "(← hkdf_New_sha256 " + c.exprAs(x.Args[1], c.typeOf(x.Args[1])) + " " + c.sliceOrNil(x.Args[2]) + " " + c.expr(x.Args[3]) + ")"
+				return "(← hkdf_New_sha256 " + c.sliceOrNil(x.Args[1]) + " " + c.sliceOrNil(x.Args[2]) + " " + c.expr(x.Args[3]) + ")"
 			}
 			if o.Pkg().Path() == "crypto/hmac" && o.Name() == "New" {
 				if c.t.pr.text(c.fi.Pkg, x.Args[0]) != "sha256.New" {
